@@ -276,6 +276,7 @@ func HarnessPoolRace() {
 	vrt.Assert("C06.append-ok", e.L.StoreLogs([]*raft.Log{{Index: 1, Term: 1, Data: big}, {Index: 2, Term: 1, Data: small}}) == nil)
 	e.W.SchedPoints = true
 	wal.VerifSched = func(p string) { vrt.Sched(p) }
+	segment.VerifSched = func(p string) { vrt.Sched(p) } // a pooled buffer was just taken / released
 	vrt.SchedMode(vrt.Param("P", 2))
 	vrt.Spawn("readerA", func() {
 		vrt.Sched("start")
@@ -292,6 +293,7 @@ func HarnessPoolRace() {
 	vrt.JoinAll()
 	vrt.SchedOff()
 	wal.VerifSched = nil
+	segment.VerifSched = nil
 	e.W.SchedPoints = false
 	vrt.Reach("pool-race-checked")
 }
